@@ -22,6 +22,9 @@ def main():
         sys.exit(mod.replay(a.replay))
     rep = common.Report(pid, a.tier, a.seed, level=getattr(mod, "LEVEL", "proof"))
     try:
+        # the static development first (a no-op when setup.sh has built it): generated files are then always compiled
+        # against the current .vo files, never against stale ones
+        common.ensure_static()
         mod.run(rep)
     except Exception:  # the machinery itself failed: fail closed, say so
         tb = traceback.format_exc()
